@@ -728,6 +728,13 @@ func handleConnectionBindRequest(req Request, stunMsg *stun.Message) error {
 		return buildAndSendErr(req.Conn, req.SrcAddr, err, badRequestMsg...)
 	}
 
+	// Only a stream connection can become a data connection. Refuse a request
+	// that arrived on a datagram socket before the peer connection is claimed:
+	// a refused request must leave it bindable (and subject to its timeout).
+	if _, isStream := req.Conn.(*proto.STUNConn); !isStream {
+		return buildAndSendErr(req.Conn, req.SrcAddr, err, badRequestMsg...)
+	}
+
 	// Authentication of the client by the server MUST use the same method
 	// and credentials as for the control connection.
 	//
